@@ -114,8 +114,19 @@ func (s *Sys) call(method, target, remote string, hdr [][2]string, body []byte) 
 		r.Header.Add(h[0], h[1])
 	}
 	w := httptest.NewRecorder()
-	s.Handler.ServeHTTP(w, r)
+	s.Handler.ServeHTTP(finalOnly{w}, r)
 	return w
+}
+
+// finalOnly gives the recorder net/http's treatment of informational responses: a 1xx
+// WriteHeader is not the final status (httptest.ResponseRecorder would record it as such).
+type finalOnly struct{ *httptest.ResponseRecorder }
+
+func (f finalOnly) WriteHeader(code int) {
+	if code >= 100 && code < 200 {
+		return
+	}
+	f.ResponseRecorder.WriteHeader(code)
 }
 
 // servedBy extracts the backend id from a response produced by a scripted backend's default script.
